@@ -16,7 +16,8 @@ import (
 // CaseC06 : date range selection is exact, inclusive and independent of layout
 // and time zone. Every oracle is metamorphic: the program against itself.
 type CaseC06 struct {
-	Base   CLIBase   `json:"base"`
+	CLI    CLIBase   `json:"cli"`
+	Base   string    `json:"base"` // first day of the log window, 2006-01-02 (chosen around DST changes, year end, leap day)
 	Kind   string    `json:"kind"` // "window", "grid", "keyword", "position", "summary", "zone"
 	ISO    bool      `json:"iso"`
 	Zone   string    `json:"zone"`
@@ -33,7 +34,11 @@ type CaseC06 struct {
 	Order  OrderPlan `json:"order"`
 }
 
-var zonePool = []string{"UTC", "America/Los_Angeles", "America/New_York", "Asia/Tokyo", "Pacific/Kiritimati", "Pacific/Pago_Pago", "Europe/Sofia", "FIXED:+05:30", "FIXED:-09:30", "Australia/Lord_Howe"}
+var zonePool = []string{"UTC", "America/Los_Angeles", "America/New_York", "Asia/Tokyo", "Pacific/Kiritimati", "Pacific/Pago_Pago", "Europe/Sofia", "Europe/Berlin", "FIXED:+05:30", "FIXED:-09:30", "Australia/Lord_Howe"}
+
+// basePool: windows of log days that contain or follow a daylight-saving change (US 2021-03-14 and
+// 2021-11-07, EU 2021-03-28 and 2021-10-31, Lord Howe 2021-04-04 and 2021-10-03), the year end and a leap day.
+var basePool = []string{"2021-01-20", "2021-03-10", "2021-03-24", "2021-10-27", "2021-11-03", "2021-04-01", "2021-09-29", "2021-12-27", "2024-02-25", "2021-03-16", "2021-11-20"}
 
 var clockPool = []int64{
 	time.Date(2021, 1, 25, 0, 0, 0, 0, time.UTC).UnixNano(),
@@ -68,8 +73,9 @@ func genC06(thorough bool) func(t *rapid.T) Case {
 		if c.ISO {
 			layout = "2006-01-02"
 		}
-		c.Base = genCLIBase(t, baseOpts{shapes: names, book: BookOpts{MaxRecipes: 4}, log: LogOpts{MaxDays: 8, MinDays: 1, Window: c06Window, Layout: layout}})
-		c.Base.Inv.Date = baseDay.AddDate(0, 0, rapid.IntRange(-1, c06Window).Draw(t, "summary_off")).Format(layout)
+		c.Base = rapid.SampledFrom(basePool).Draw(t, "base_day")
+		c.CLI = genCLIBase(t, baseOpts{shapes: names, book: BookOpts{MaxRecipes: 4}, log: LogOpts{MaxDays: 8, MinDays: 1, Window: c06Window, Layout: layout, Base: c.base()}})
+		c.CLI.Inv.Date = c.base().AddDate(0, 0, rapid.IntRange(-1, c06Window).Draw(t, "summary_off")).Format(layout)
 		c.Zone = rapid.SampledFrom(zonePool).Draw(t, "zone")
 		c.Zone2 = rapid.SampledFrom(zonePool).Draw(t, "zone2")
 		c.Clock = rapid.SampledFrom(clockPool).Draw(t, "clock")
@@ -84,7 +90,7 @@ func genC06(thorough bool) func(t *rapid.T) Case {
 		}
 		c.B, c.E = pick("b"), pick("e")
 		c.Pos = "global"
-		if sh := shapeByName(c.Base.Inv.Shape); sh.Period {
+		if sh := shapeByName(c.CLI.Inv.Shape); sh.Period {
 			c.Pos = rapid.SampledFrom([]string{"global", "local", "both"}).Draw(t, "pos")
 		}
 		if c.Kind == "position" {
@@ -94,8 +100,34 @@ func genC06(thorough bool) func(t *rapid.T) Case {
 		c.KwSide = rapid.SampledFrom([]string{"b", "e"}).Draw(t, "kw_side")
 		c.SumKw = rapid.SampledFrom([]string{"", "", "today", "yesterday"}).Draw(t, "summary_kw")
 		c.Order = OrderPlan{Mode: rapid.SampledFrom([]string{"asc", "desc", "shuffle"}).Draw(t, "order"), Seed: rapid.Uint64().Draw(t, "order_seed")}
+		if c.Kind == "keyword" && rapid.Bool().Draw(t, "dst_targeted") {
+			// bias: a daylight-saving change of the process zone lies between the keyword's day and --today,
+			// and the log has a block on the boundary day
+			tr := rapid.SampledFrom(dstTransitions).Draw(t, "transition")
+			back := map[string]int{"today": 0, "yesterday": 1, "last7": 7, "last30": 30}[c.Kw]
+			after := rapid.IntRange(0, back).Draw(t, "days_after_transition")
+			lead := rapid.IntRange(0, 3).Draw(t, "lead")
+			trDay, _ := time.Parse("2006-01-02", tr.day)
+			today := trDay.AddDate(0, 0, after+rapid.IntRange(0, 1).Draw(t, "utc_side"))
+			c.Zone = tr.zone
+			c.Base = today.AddDate(0, 0, -back-lead).Format("2006-01-02")
+			c.Today = back + lead
+			c.CLI.Log = genLog(t, c.CLI.Book, LogOpts{MaxDays: 6, MinDays: 1, Window: c06Window, Layout: layout, Base: c.base()})
+			c.CLI.Log = append(c.CLI.Log, Block{Head: c.day(lead), Items: []Item{{"kcal", "1"}}}, Block{Head: c.day(lead + 1), Items: []Item{{"fat", "2"}}})
+		}
 		return c
 	}
+}
+
+type dstTransition struct{ zone, day string }
+
+// dstTransitions: UTC dates on which the zone's offset changes.
+var dstTransitions = []dstTransition{
+	{"America/New_York", "2021-03-14"}, {"America/New_York", "2021-11-07"},
+	{"America/Los_Angeles", "2021-03-14"}, {"America/Los_Angeles", "2021-11-07"},
+	{"Europe/Berlin", "2021-03-28"}, {"Europe/Berlin", "2021-10-31"},
+	{"Europe/Sofia", "2021-03-28"}, {"Europe/Sofia", "2021-10-31"},
+	{"Australia/Lord_Howe", "2021-04-03"}, {"Australia/Lord_Howe", "2021-10-02"},
 }
 
 func (c *CaseC06) layout() string {
@@ -105,12 +137,20 @@ func (c *CaseC06) layout() string {
 	return defaultDateLayout
 }
 
-func (c *CaseC06) day(off int) string { return baseDay.AddDate(0, 0, off).Format(c.layout()) }
+func (c *CaseC06) base() time.Time {
+	t, err := time.Parse("2006-01-02", c.Base)
+	if err != nil {
+		panic(harnessFault{"bad base day " + c.Base})
+	}
+	return t
+}
+
+func (c *CaseC06) day(off int) string { return c.base().AddDate(0, 0, off).Format(c.layout()) }
 
 // invoke builds a world: blocks is the log, per is the period given as strings
 // (nil = flag absent), decoy (if any) is a conflicting period given globally.
 func (c *CaseC06) invoke(blocks []Block, b, e *string, pos string, zone string, clock int64) World {
-	base := c.Base
+	base := c.CLI
 	base.Log = blocks
 	iv := base.Inv
 	g := append([]string{}, iv.Globals...)
@@ -157,7 +197,7 @@ func (c *CaseC06) keep(blocks []Block, b, e *int) []Block {
 		if err != nil {
 			panic(harnessFault{"generated heading is not a date: " + bl.Head})
 		}
-		off := int(d.Sub(baseDay).Hours() / 24)
+		off := int(d.Sub(c.base()).Hours() / 24)
 		if (b == nil || off >= *b) && (e == nil || off <= *e) {
 			out = append(out, bl)
 		}
@@ -171,8 +211,8 @@ func strp(s string) *string { return &s }
 
 // Eval applies the metamorphic relation selected by Kind.
 func (c *CaseC06) Eval(ob *Obs) []Finding {
-	shape := c.Base.Inv.Shape
-	log := c.Base.Log
+	shape := c.CLI.Inv.Shape
+	log := c.CLI.Log
 	var out []Finding
 	dayp := func(p *int) *string {
 		if p == nil {
@@ -249,7 +289,7 @@ func (c *CaseC06) Eval(ob *Obs) []Finding {
 			same("C06 subcommand-period-does-not-override-global", "conflicting period before the command", w1, w2)
 		}
 	case "summary":
-		d := c.Base.Inv.Date
+		d := c.CLI.Inv.Date
 		target := d
 		if c.SumKw != "" {
 			d = c.SumKw
@@ -260,7 +300,7 @@ func (c *CaseC06) Eval(ob *Obs) []Finding {
 			target = c.day(off)
 		}
 		c2 := *c
-		c2.Base.Inv.Date = d
+		c2.CLI.Inv.Date = d
 		var only []Block
 		for _, bl := range log {
 			if bl.Head == target {
@@ -280,12 +320,12 @@ func (c *CaseC06) Eval(ob *Obs) []Finding {
 			}
 		}
 	case "zone":
-		d := c.Base.Inv.Date
+		d := c.CLI.Inv.Date
 		if shape == "summary" && c.SumKw != "" {
 			d = c.SumKw
 		}
 		c2 := *c
-		c2.Base.Inv.Date = d
+		c2.CLI.Inv.Date = d
 		var b, e *string = dayp(c.B), dayp(c.E)
 		if rapidBoolFromSeed(c.Order.Seed) {
 			if c.KwSide == "b" {
